@@ -83,6 +83,13 @@ func HarnessC10(a []int) {
 	for i := 0; i < closers; i++ {
 		go func() {
 			conn.Close()
+			// whoever returns from Close finds the tunnel ended
+			select {
+			case _, open := <-conn.Inbound():
+				verifAssert("C10.closed_when_close_returns", !open)
+			default:
+				verifFail("C10.closed_when_close_returns")
+			}
 			returned++
 			latest = verifNow()
 		}()
